@@ -10,16 +10,19 @@ FILES = ["src/stereomolgraph/experimental.py", "src/stereomolgraph/stereodescrip
 FUNCTIONS = ["JSONHandler.as_dict", "JSONHandler.json_serialize", "JSONHandler.json_deserialize", "JSONHandler._stereo_from_payload"]
 BOUNDS = {"quick": "all four classes: small family over {0,1,2} (formed / broken / fleeting roles, descriptors of class Tet/SP/PlanarBond/AtropBond with placeholders and "
                    "unspecified parity, every listed combination of broken / formed / fleeting stereo changes) and templates for every descriptor class; "
-                   "identifier variants: as built, shifted to negative / zero / 2^40; identifier sets that differ in one identifier of equal CPython hash (-1 / -2, 0 / 2^61-1); the loaded graph is edited and the same text loaded again",
+                   "identifier variants: as built, shifted to negative / zero / 2^40; small identifiers mixed with identifiers in [2^63, 2^64), and identifiers beyond 2^64 / 10^30; identifier sets that differ in one identifier of equal CPython hash (-1 / -2, 0 / 2^61-1); the loaded graph is edited and the same text loaded again",
           "thorough": "all decorations; templates star5, star6, twocentre"}
 OUTSIDE = "attributes other than element and reaction role (not part of the property); graphs larger than the bounds"
 ASSUMPTIONS = ["json is a C extension: graphs are concrete when serialised (engine A-sel)"]
 
 IDMAPS = [None, {0: -7, 1: 0, 2: 1 << 40, 3: 5, 4: 11, 5: -1, 6: 3, 7: 9},
+          # (round 3) identifiers around and beyond the 64-bit boundaries: Python ints and JSON integers are unbounded, NumPy integer arrays are not
+          {0: 5, 1: (1 << 63) + 1, 2: (1 << 63) + 3, 3: -7, 4: (1 << 63) + 5, 5: 1 << 62, 6: (1 << 64) - 1, 7: 11},
           # identifier sets that differ in one identifier only, chosen so that the two identifiers have the same CPython hash (-1 / -2, 0 / 2^61-1)
           {0: -1, 1: 3, 2: 4, 3: 6, 4: 8, 5: 10, 6: 12, 7: 14}, {0: -2, 1: 3, 2: 4, 3: 6, 4: 8, 5: 10, 6: 12, 7: 14},
-          {0: 3, 1: 0, 2: 4, 3: 6, 4: 8, 5: 10, 6: 12, 7: 14}, {0: 3, 1: (1 << 61) - 1, 2: 4, 3: 6, 4: 8, 5: 10, 6: 12, 7: 14}]
-NMAPS = {"quick": 4, "thorough": 6}
+          {0: 3, 1: 0, 2: 4, 3: 6, 4: 8, 5: 10, 6: 12, 7: 14}, {0: 3, 1: (1 << 61) - 1, 2: 4, 3: 6, 4: 8, 5: 10, 6: 12, 7: 14},
+          {0: (1 << 63) + 1, 1: 1 << 64, 2: -(1 << 63) - 1, 3: 10 ** 30, 4: 1 << 63, 5: (1 << 63) - 1, 6: -(1 << 63), 7: 2}]
+NMAPS = {"quick": 5, "thorough": 7}
 
 
 def _strip(s):
@@ -30,7 +33,7 @@ def _strip(s):
     return t
 
 
-def _check(spec, nmaps=4):
+def _check(spec, nmaps=8):
     for idmap in IDMAPS[:nmaps]:
         sp = spec if idmap is None else tmpl.rename(spec, idmap)
         sp = dict(sp)
